@@ -30,7 +30,8 @@ def gen_case(rng):
         om['probs'] = [[l, p] for l, p in zip(lv, pr)]
         om['keyspace'] = [[l, 1] for l in range(19)]
         spec['omen'] = om
-        pm = rng.choice([0.5, 0.25, 0.4002480779760552, 0.1, 0.3, 1 / 3, 0.6])
+        # also Markov shares below 1e-4, which repr() writes in exponent notation (a ruleset trained with a coverage very close to 1)
+        pm = rng.choice([0.5, 0.25, 0.4002480779760552, 0.1, 0.3, 1 / 3, 0.6, 4.999999999999748e-05, 1e-05, 3.2e-07])
         if place == 'only':
             spec['base'] = [['M', 1.0]]
         else:
@@ -42,7 +43,7 @@ def gen_case(rng):
             if rng.random() < 0.25:
                 # what the trainer writes for a list whose passwords all share one structure: count / total with the Markov pseudo-count N/c - N.
                 # On paper p / (1 - P(M)) = 1; as floats it is 1 +- 1 ulp
-                N, c = rng.randint(1, 40), rng.choice([0.6, 0.6, 0.1, 0.2, 0.3, 0.7, 0.9, 0.45])
+                N, c = rng.randint(1, 40), rng.choice([0.6, 0.6, 0.1, 0.2, 0.3, 0.7, 0.9, 0.45, 0.99995, 0.999999])
                 pseudo = N / c - N
                 keep = next(b for b in spec['base'] if b[0] != 'M')
                 spec['base'] = sorted([[keep[0], N / (N + pseudo)], ['M', pseudo / (N + pseudo)]], key=lambda r: -r[1])
